@@ -7,6 +7,8 @@ mkdir -p run/bin .locks replays evidence
 cp /repo/go.sum harness/go.sum
 (cd harness && go build -tags verif -o ../run/bin/harness .)
 mkdir -p lean/CoreDhcp/Generated
-run/bin/harness gen -out lean/CoreDhcp/Generated/IPCalc.lean
+for u in ipcalc:IPCalc dispatch6:Dispatch6 dispatch4:Dispatch4 serverid6:ServerID6 netmask:Netmask; do
+  run/bin/harness gen -unit "${u%%:*}" -out "lean/CoreDhcp/Generated/${u##*:}.lean"
+done
 (cd lean && lake build 2>&1 | tail -3)
 echo "setup ok"
